@@ -32,11 +32,25 @@ pub struct TcpRun {
     pub client_timed_out: bool,
 }
 
-/// plans the differential applies to: plaintext, fault-free, well-formed, moderate in size
+/// the one fault the differential can reproduce over a real socket: the client stops sending
+/// after byte k of its script and half-closes (FIN); it keeps reading until the server hangs up
+pub fn halfclose_cut(plan: &Plan) -> Option<usize> {
+    match plan.faults.as_slice() {
+        [Fault {
+            at: FaultAt::ClientByte(k),
+            kind: FaultKind::Eof,
+            persistent: true,
+        }] => Some(*k as usize),
+        _ => None,
+    }
+}
+
+/// plans the differential applies to: plaintext, fault-free (or ended by a half-close),
+/// well-formed, moderate in size
 pub fn eligible(plan: &Plan) -> bool {
     plan.cfg.tls.is_none()
         && !plan.cfg.tls_offered
-        && plan.faults.is_empty()
+        && (plan.faults.is_empty() || halfclose_cut(plan).is_some())
         && !plan.is_hostile()
         && !plan.cfg.default_on_init
         && plan.cmds.len() <= 40
@@ -78,6 +92,29 @@ pub fn judge(plan: &Plan, out: &crate::sim::Outcome) -> Vec<(String, String)> {
         return vs;
     }
     let want_cbs: Vec<String> = out.w.callbacks.iter().map(|(_, c)| c.short()).collect();
+    if let Some(k) = halfclose_cut(plan) {
+        // what the client receives is not compared here: a server that gives up with input still
+        // unread makes the kernel reset the connection, and a reset may overtake its last bytes
+        if let Ok(t) = run_tcp_cut(plan, true, Some(k)) {
+            if t.client_timed_out {
+                vs.push((
+                    "half-closing client: server did not hang up".to_string(),
+                    format!("client sent {} bytes and half-closed; 20 s later the server had neither closed the connection nor sent more (run_on_tcp returned {})", k, t.end),
+                ));
+            } else if t.end != out.end.class() {
+                vs.push((
+                    "half-closing client: result of run_on_tcp".to_string(),
+                    format!("client sent {} bytes and half-closed: run_on_tcp ended with {}, run_on (end of stream at that byte) with {}", k, t.end, out.end.class()),
+                ));
+            } else if t.callbacks != want_cbs {
+                vs.push((
+                    "half-closing client: callbacks".to_string(),
+                    format!("client sent {} bytes and half-closed: callbacks over loopback {:?}, simulated {:?}", k, t.callbacks, want_cbs),
+                ));
+            }
+        }
+        return vs;
+    }
     for eager in [false, true] {
         let style = if eager { "eager client" } else { "polite client" };
         match run_tcp(plan, eager) {
@@ -125,9 +162,19 @@ pub fn judge(plan: &Plan, out: &crate::sim::Outcome) -> Vec<(String, String)> {
 }
 
 pub fn run_tcp(plan: &Plan, eager: bool) -> Result<TcpRun, String> {
+    run_tcp_cut(plan, eager, None)
+}
+
+/// `cut`: the client sends only the first `cut` bytes of its script, then shuts down its sending
+/// direction (and goes on reading)
+pub fn run_tcp_cut(plan: &Plan, eager: bool, cut: Option<usize>) -> Result<TcpRun, String> {
     let m = model::build(plan);
     let world = World::new(plan, &m);
-    let cbytes = world.cbytes.clone();
+    let mut cbytes = world.cbytes.clone();
+    if let Some(k) = cut {
+        cbytes.truncate(k);
+    }
+    let half_close = cut.is_some();
     if cbytes.len() > 2_000_000 {
         return Err("too large".into());
     }
@@ -150,6 +197,9 @@ pub fn run_tcp(plan: &Plan, eager: bool) -> Result<TcpRun, String> {
         if eager {
             // the whole conversation is in the socket before the server even accepts
             let _ = s.write_all(&cbytes);
+            if half_close {
+                let _ = s.shutdown(std::net::Shutdown::Write);
+            }
             let _ = ready_tx.send(());
         } else {
             let _ = ready_tx.send(());
@@ -160,6 +210,9 @@ pub fn run_tcp(plan: &Plan, eager: bool) -> Result<TcpRun, String> {
                 Err(_) => return (got, true),
             }
             let _ = s.write_all(&cbytes);
+            if half_close {
+                let _ = s.shutdown(std::net::Shutdown::Write);
+            }
         }
         // never close first: the conversation ends with QUIT (or with an error on the server's
         // side), the server hangs up
